@@ -17,7 +17,8 @@ ENGINE = "bfs"
 TECHNIQUE = "explicit-state BFS over operation/rollback histories of the real plan_state; differential oracle against a fresh planner replaying the surviving operations"
 RULE = (
     "every history up to the depth bound over {add (plain and forced), replace, remove of packages x-1[installed], x-2, "
-    "y-1[installed], y-2; add/drop of blockers !<a/x-2 and !a/y for two owners (so reference counts reach 2); hard reference; "
+    "y-1[installed], y-2; add/drop of blockers !<a/x-2 and !a/y for two owners (so reference counts reach 2) and of a rewritten "
+    "blocker registered under a key other than its own; hard reference; "
     "back reference; backtrack to every earlier operation boundary} is replayed on a fresh plan_state. In every state whose "
     "history contains a rollback the full planner state (slot table, limiters, package->choice bindings, per-owner blocker "
     "lists, blocker reference counts, installed-package exclusions, forced restrictions with counts, operation log) must "
@@ -39,7 +40,7 @@ ASSUMPTIONS = [
     "it is not judged",
 ]
 BOUNDS = {
-    "quick": "20-event alphabet + rollback to every boundary, all histories to depth 5, partitioned by 2-event root prefixes",
+    "quick": "22-event alphabet + rollback to every boundary, all histories to depth 5, partitioned by 2-event root prefixes",
     "thorough": "same alphabet, all histories to depth 6 (depth 7 measured at ~46M transitions, outside the budget), partitioned by 2-event root prefixes",
 }
 
@@ -57,8 +58,11 @@ EVENTS = (
     + [["remove", "X1"], ["remove", "X2"], ["remove", "Y2"]]
     + [["block", o, b] for o in OWNERS for b in ("BX", "BY")]
     + [["unblock", o, b] for o in OWNERS for b in ("BX", "BY")]
+    + [["block", "X1", "BK"], ["unblock", "X1", "BK"]]
     + [["hardref"], ["backref", "X2"]]
 )
+# BK: a rewritten blocker (as merge_plan.generate_mangled_blocker produces) registered under a key that is not its own .key
+KEYED = {"BK": ("<a/x-2", "a/rewritten", "a/x")}  # label: (matched atom, the restriction's own key, key it is registered under)
 
 _static = {}
 
@@ -77,6 +81,12 @@ def _setup():
         pk[name] = FakePkg(cpv, eapi="8", slot="0", repo=vdb if livefs else src)
     _static["pkgs"] = pk
     _static["blockers"] = {k: atom(v) for k, v in BLOCKERS.items()}
+    from pkgcore.restrictions import packages
+
+    _static["regkey"] = {}
+    for k, (matched, own, reg) in KEYED.items():
+        _static["blockers"][k] = packages.KeyedAndRestriction(atom(matched), key=own)
+        _static["regkey"][k] = reg
     _static["hardref"] = atom(HARDREF)
     _static["atoms"] = {name: atom("=" + PKG_SPEC[name][0]) for name in PKGS}
     return _static
@@ -170,11 +180,11 @@ def apply_forward(w, ev):
         return "done"
     if kind == "block":
         b = w.blockers[ev[2]]
-        r = plan.add_blocker(w.cps[ev[1]], b, key=b.key)
+        r = plan.add_blocker(w.cps[ev[1]], b, key=_setup()["regkey"].get(ev[2], b.key))
         return "hit" if r else "done"
     if kind == "unblock":
         b = w.blockers[ev[2]]
-        st.decref_forward_block_op(w.cps[ev[1]], b, b.key).apply(plan)
+        st.decref_forward_block_op(w.cps[ev[1]], b, _setup()["regkey"].get(ev[2], b.key)).apply(plan)
         return "done"
     if kind == "hardref":
         st.add_hardref_op(_setup()["hardref"]).apply(plan)
